@@ -1,4 +1,4 @@
 Require Extraction.
 Require Import ExtrOcamlBasic.
-From Herc Require Import Base.Conv Plan.Syntax Plan.Exec Plan.Graph Plan.Checker Plan.ExecCheck.
-Extraction "c02_model.ml" conv_anchor plan_ok topob retainedb mkA exec_ok mkR.
+From Herc Require Import Base.Conv Plan.Syntax Plan.Exec Plan.Graph Plan.Checker Plan.ExecCheck Plan.FastPlan.
+Extraction "c02_model.ml" conv_anchor plan_ok topob retainedb mkA exec_ok mkR fast_c02 mkFA.
